@@ -95,6 +95,8 @@ def run_shard(shard):
             typed_family(st)
         if li == 1:
             mergekey_family(st)
+        if li == 2:
+            stdin_family(st)
     finally:
         cleanup()
     st.sample({"lhs_stream": render_stream(STREAMS[li]),
@@ -296,6 +298,66 @@ def typed_family(st):
                               if outs[m] != outs["merge_across"]})[:400])
 
 
+def stdin_family(st):
+    """The right-hand stream read from standard input is the stream read from
+    a file: the same number of documents (also when the stream ENDS in an
+    empty document), so every mode gives the same result either way."""
+    import io
+    import yamlpath.common.parsers as parsers_mod
+    from yamlpath.common import Parsers
+    from vkit import editrun
+    lefts = [(0, 2), (0,), (2, 0, 1)]
+    rights = [(1, 5), (5,), (1, 5, 5), (5, 1), (1, 2), (4, 1, 5)]
+    for lidx in lefts:
+        for ridx in rights:
+            for mode in MODES:
+                st.evaluations += 1
+                st.transitions += 2
+                st.validated += 1
+                pol = POLS[0]
+                rtext = render_stream(ridx)
+                outs = {}
+                for delivery in ("file", "stdin"):
+                    cfg = mergerun.make_config(pol)
+                    cfg.args.multi_doc_mode = mode
+                    lpath = os.path.join(scratch(), "sl.yaml")
+                    rpath = os.path.join(scratch(), "sr.yaml")
+                    with open(lpath, "w", encoding="utf-8") as fh:
+                        fh.write(render_stream(lidx))
+                    with open(rpath, "w", encoding="utf-8") as fh:
+                        fh.write(rtext)
+                    editor = Parsers.get_yaml_editor()
+                    Merger.depwarn_printed = False
+                    saved = parsers_mod.stdin
+                    parsers_mod.stdin = io.StringIO(rtext)
+                    try:
+                        lhs_docs, _ = yaml_merge.get_doc_mergers(
+                            corpus.LOG, editor, cfg, lpath)
+                        with core.watchdog(10):
+                            state = yaml_merge.merge_docs(
+                                corpus.LOG, editor, cfg, lhs_docs,
+                                rpath if delivery == "file" else "-")
+                        outs[delivery] = (state, [
+                            corpus.canon(m.data) for m in lhs_docs]
+                                          if state == 0 else None)
+                    except BaseException as ex:  # pylint: disable=broad-except
+                        outs[delivery] = ("crash", type(ex).__name__)
+                    finally:
+                        parsers_mod.stdin = saved
+                st.states += 1
+                st.sig("stdin-stream", lidx, ridx, mode)
+                if outs["file"] != outs["stdin"]:
+                    st.fail("%s|stdin-stream-differs" % mode,
+                            {"lhs_stream": render_stream(lidx),
+                             "rhs_stream": rtext, "mode": mode,
+                             "policies": pol, "stdin_stream": True},
+                            repr(outs["file"])[:300],
+                            repr(outs["stdin"])[:300])
+                else:
+                    st.outcomes["merged" if outs["file"][0] == 0
+                                else "refused"] += 1
+
+
 _MK_R1 = ("defs: &d {x: 1, y: 2}\nuse:\n  <<: *d\n  z: 3\nu:\n  <<: *d\n"
           "  w: 5\n")
 MERGEKEY_STREAMS = [
@@ -405,6 +467,14 @@ def mergekey_family(st):
 
 def replay(case):
     st = core.Stats(None)
+    if case.get("stdin_stream"):
+        try:
+            stdin_family(st)
+        finally:
+            cleanup()
+        for lst in st.fails.values():
+            return lst[0]
+        return None
     if case.get("mergekeys"):
         try:
             mergekey_family(st)
